@@ -6,6 +6,7 @@ import (
 	"go/token"
 	"go/types"
 	"os"
+	"regexp"
 	"sort"
 	"strings"
 
@@ -23,24 +24,24 @@ type Engine struct {
 	// RootParamsNonNil: pointer parameters (and receivers) of root functions are assumed non-nil.
 	Roots map[*ssa.Function]bool
 
-	moduleFuncs []*ssa.Function
-	fas         map[*ssa.Function]*FuncAn
-	busy        map[*ssa.Function]bool
-	sums        map[*ssa.Function]*Summary
-	sumBusy     map[*ssa.Function]bool
-	writes      map[*ssa.Function]*WriteSet
-	extWrites   map[*ssa.Function]*WriteSet
-	fieldInv    map[*types.Var]fieldInvRes
-	callees     map[ssa.CallInstruction][]*ssa.Function
-	callers     map[*ssa.Function][]ssa.CallInstruction
+	moduleFuncs   []*ssa.Function
+	fas           map[*ssa.Function]*FuncAn
+	busy          map[*ssa.Function]bool
+	sums          map[*ssa.Function]*Summary
+	sumBusy       map[*ssa.Function]bool
+	writes        map[*ssa.Function]*WriteSet
+	extWrites     map[*ssa.Function]*WriteSet
+	fieldInv      map[*types.Var]fieldInvRes
+	callees       map[ssa.CallInstruction][]*ssa.Function
+	callers       map[*ssa.Function][]ssa.CallInstruction
 	paramMaybeNil map[*ssa.Parameter]string // parameter -> call site that may pass nil
-	Scope       map[*ssa.Function]bool      // functions whose call sites count for parameter preconditions
-	externSeen  map[string]*ExternUse
-	mapInv      map[string]bool
-	decs        map[*ssa.Function]*DecSummary
-	ctxFas      map[*ssa.Function]*FuncAn
-	ctxBusy     map[*ssa.Function]bool
-	countSums   map[*ssa.Function]*CountSummary
+	Scope         map[*ssa.Function]bool    // functions whose call sites count for parameter preconditions
+	externSeen    map[string]*ExternUse
+	mapInv        map[string]bool
+	decs          map[*ssa.Function]*DecSummary
+	ctxFas        map[*ssa.Function]*FuncAn
+	ctxBusy       map[*ssa.Function]bool
+	countSums     map[*ssa.Function]*CountSummary
 }
 
 func NewEngine(prog *ssa.Program, cg *callgraph.Graph, inModule func(*ssa.Function) bool, goarch string) *Engine {
@@ -187,7 +188,7 @@ type Obl struct {
 	Status     Status
 	Why        string
 	Nontrivial bool
-	Input      bool // some operand derives from an input symbol
+	Input      bool   // some operand derives from an input symbol
 	Assumed    string // discharged by a stated assumption (e.g. "A5"), not by a fact
 }
 
@@ -311,6 +312,11 @@ func exprAt(f *ssa.Function, pos token.Pos, kind string) string {
 	}
 	return ""
 }
+
+var ssaNumRe = regexp.MustCompile(`φ[0-9]+|\bt[0-9]+`)
+
+// stableName removes SSA register numbers from a diagnostic rendering (keys must survive unrelated edits).
+func stableName(s string) string { return ssaNumRe.ReplaceAllString(s, "") }
 
 func clip(s string) string {
 	s = strings.Join(strings.Fields(s), " ")
@@ -446,7 +452,12 @@ func (e *Engine) Obligations(f *ssa.Function) []*Obl {
 				o.Why += " (call site: " + e.paramMaybeNil[p] + ")"
 			}
 		}
-		o.Expr = a.valName(v)
+		// stable key text: the source construct when it can be located, else the value rendering without
+		// SSA register numbers
+		o.Expr = stableName(a.valName(v))
+		if src := exprAt(f, ins.Pos(), "nil"); src != "" {
+			o.Expr = src + " <- " + o.Expr
+		}
 		out = append(out, o)
 	}
 	for _, b := range a.rpo {
